@@ -2,9 +2,9 @@
 import json
 
 PLAN = {
-    'C01': ['harness.fe_typeargs', 'harness.fe_defaults', 'harness.fe_examples', 'harness.fe_docrefs', 'harness.fe_attrs', 'harness.fe_names', 'harness.fe_structure', 'harness.c11_layout'],
+    'C01': ['harness.fe_typeargs', 'harness.fe_defaults', 'harness.fe_examples', 'harness.fe_docrefs', 'harness.fe_attrs', 'harness.fe_names', 'harness.fe_structure', 'harness.fe_rules', 'harness.c11_layout'],
     'C02': ['harness.fe_typeargs', 'harness.fe_defaults', 'harness.fe_examples', 'harness.fe_attrs', 'harness.fe_structure', 'harness.c02_units'],
-    'C03': ['harness.fe_typeargs', 'harness.fe_defaults', 'harness.fe_examples', 'harness.fe_docrefs', 'harness.fe_attrs', 'harness.fe_names', 'harness.fe_structure', 'harness.c03_units', 'harness.c11_layout'],
+    'C03': ['harness.fe_typeargs', 'harness.fe_defaults', 'harness.fe_examples', 'harness.fe_docrefs', 'harness.fe_attrs', 'harness.fe_names', 'harness.fe_structure', 'harness.fe_rules', 'harness.c03_units', 'harness.c11_layout'],
     'C10': ['harness.fe_defaults', 'harness.fe_examples', 'harness.c10_emit'],
     'C04': ['harness.c04_roundtrip'],
     'C05': ['harness.c04_roundtrip'],
